@@ -22,7 +22,7 @@ from common import Check, main_wrapper
 
 def main():
     ck = Check("C08", "proof")
-    ck.lean_stage(["VelaVerif.Props.C08"])
+    ck.lean_stage(["VelaVerif.Props.C08", "VelaVerif.Props.C08Src"])
     common.build_mlw_codec()
     common.setup_repo_path()
     import numpy as np
